@@ -6,7 +6,8 @@ LEVEL = 'proof'; TRUSTED = engcommon.TRUSTED_ENGINE; ASSUMPTIONS = engcommon.ASS
 def run(ctx):
     def extra(ctx):
         rnd = random.Random(ctx.seed * 17 + 1)
-        return [ec.gen_cycle_history(rnd, 'C17_cyc_%d' % i) for i in range(2500 if ctx.quick() else 20000)]
+        return [ec.gen_cycle_history(rnd, 'C17_cyc_%d' % i) for i in range(2500 if ctx.quick() else 20000)] + \
+               [ec.motif_deps_record_cycle(rnd, 'C17_rec%d' % i) for i in range(40 if ctx.quick() else 400)]
     known = {k.get('id') for k in ctx.known_list if k.get('property') == 'C17'}
     def orc(h, st, b, prev=None):
         bad = ec.oracle_c17(h, st, b)
